@@ -45,10 +45,10 @@ M('C01', 'remove-read-after-del', TRACK,
   "        idAF = len(self.__analyticalFeaturesDico) - 1\n        for i in range(self.size()):\n            del self.getObs(i).features[idAF]\n        del self.__analyticalFeaturesDico[name]", 'C01.H')
 M('C01', 'update-other-column', TRACK, "        idAF = self.__analyticalFeaturesDico[name] \n", "        idAF = len(self.__analyticalFeaturesDico) - 1\n", 'C01.H')
 M('C01', 'cleanup-only-first', TRACK, "            for af in SUPPRESS_AF:\n                if af[0] == \"#\":\n                    self.removeAnalyticalFeature(af)",
-  "            for af in SUPPRESS_AF:\n                if af[0] == \"#\" and len(af) > 2:\n                    self.removeAnalyticalFeature(af)", 'C01.T')
+  "            for af in SUPPRESS_AF:\n                if af[0] == \"#\" and len(af) > 2:\n                    self.removeAnalyticalFeature(af)", 'C01.J')
 M('C01', 'operator-moves-x', OPS, "        f = lambda x: -x\n        return track.operate(Operator.APPLY, af_input, f, af_output)",
   "        f = lambda x: -x\n        track.getObs(0).position.setX(0)\n        return track.operate(Operator.APPLY, af_input, f, af_output)", 'C01.F')
-M('C01', 'temp-name-public', TRACK, "        if op1IsAF and op2IsAF:\n            out_af = \"#\" + str(temp_af_counter)", "        if op1IsAF and op2IsAF:\n            out_af = \"tmp\" + str(temp_af_counter)", 'C01.T')
+M('C01', 'temp-name-public', TRACK, "        if op1IsAF and op2IsAF:\n            out_af = \"#\" + str(temp_af_counter)", "        if op1IsAF and op2IsAF:\n            out_af = \"tmp\" + str(temp_af_counter)", 'C01.J')
 T('C01', 'twin-create-rename', TRACK, "        idAF = len(self.__analyticalFeaturesDico)\n        self.__analyticalFeaturesDico[name] = idAF",
   "        column = len(self.__analyticalFeaturesDico)\n        self.__analyticalFeaturesDico[name] = column")
 T('C01', 'twin-remove-ge', TRACK, "            if self.__analyticalFeaturesDico[k] > idAF:", "            if idAF < self.__analyticalFeaturesDico[k]:")
